@@ -3,6 +3,8 @@
 refactor_prompt.py <Cxx> <slot>.  The checks must stay silent on every one of them (false-alarm probe)."""
 import json, sys
 pid, slot = sys.argv[1], sys.argv[2]
+# optional third argument: a notes.md of refactorings already collected for this property (ask for different ones)
+AVOID = open(sys.argv[3]).read() if len(sys.argv) > 3 else ""
 props = {json.loads(l)["id"]: json.loads(l) for l in open("/verif/properties.jsonl")}
 p = props[pid]
 t = f"""You are helping to evaluate a verification tool for the Rust project bestinslot-xyz/brc20-programmable-module (a revm-based EVM execution engine for BRC20 indexers with a reorg-capable block-history cache over RocksDB and a JSON-RPC server).
@@ -26,6 +28,7 @@ Procedure, for k = 1, 2, 3:  start from a clean checkout (`git -C /tmp/seed/{slo
 
 Also write /tmp/seed/{slot}/out/notes.md: for each refactoring, one paragraph saying what was changed and why it cannot change behaviour (in particular: lock order, order of database writes, which errors are returned, what is persisted).
 
+{("Refactorings of this code that were ALREADY collected (do something DIFFERENT - other functions among the anchors, other kinds of restructuring: table-driven instead of repeated calls, iterator adapters <-> hand-written loops, predicate functions <-> flags, async helper extraction, moving logic onto another type of the same module, merging two functions, splitting by early return, changing the order of independent checks, replacing a match by combinators, introducing a small struct or enum for a tuple, etc.):" + chr(10) + AVOID + chr(10)) if AVOID else ""}
 Rules: do not modify or delete existing tests; do not touch files outside /tmp/seed/{slot}; do not use the network; do not look at /verif. Leave the worktree clean at the end."""
 open(f"/tmp/seed/{slot}/prompt.txt", "w").write(t)
 print("refactor prompt for", pid, "->", slot)
